@@ -12,7 +12,7 @@ RULE = ("histories of 1..12 protocol errors with gaps from {1 s, 59 s, 299 s, 29
         "min(60 s * 2^k, 300 s) with k reset by a gap >= 300 s. distinct = distinct gap lists.")
 ASSUMPTIONS = ["gaps avoid the +-1 ms window around exactly 300 s except for the exact value (time.Since adds run time)",
                "which errors reach updateStartupDelay (only non-Cease notifications) is decided by the system-level part"]
-COQ_FILES = ["Model/Server.v", "Spec/ServerSpec.v", "Proofs/ServerProofs.v", "Props/C12.v"]
+COQ_FILES = ["Model/Server.v", "Spec/ServerSpec.v", "Proofs/ServerProofs.v", "Model/Peer.v", "Proofs/PeerProofs.v", "Proofs/PeerCorollaries.v", "Proofs/PeerFindings.v", "Props/C12.v"]
 GAPS = [1 * S, 59 * S, 299 * S, 2999 * S // 10, 300 * S, 3001 * S // 10, 301 * S, 600 * S, 3600 * S]
 
 
@@ -126,8 +126,45 @@ def damp_items(rng, tier):
     return out
 
 
+class Dropped(Damp):
+    """recorded finding D14: the outbound FSM has sent NOTIFICATION (2,1) and is about to report the error when the
+    manager stops it because the inbound FSM reaches Established: the error report is lost, no hold-down starts."""
+
+    def __init__(self, sid):
+        Damp.__init__(self, sid, "out", "openSent", ("send-bad", None), True)
+        self.tag = "known.D14.error-dropped-by-stop"
+
+    def scenario(self):
+        bad = S.frame(S.OPEN, S.open_body(ver=3)).hex()
+        st = [["accept", "c1", 3000], ["recv", "c1", 1, 2000],
+              ["dial", "c2"], ["recv", "c2", 1, 2000], ["send", "c2", OPENM.hex(), 0], ["recv", "c2", 1, 1000], ["sleep", 20],
+              ["arm", "run.errselect"],
+              ["send", "c1", bad, 0], ["wait_event", "point.hold", 1500, "run.errselect"], ["recv", "c1", 1, 500],
+              ["send", "c2", KAM.hex(), 0], ["wait_event", "m.disable", 1500], ["sleep", 10],
+              ["release", "run.errselect"], ["recv_eof", "c1", 1000], ["sleep", 150]]
+        for k in range(2):
+            st += [["dial", "p%d" % k], ["recv", "p%d" % k, 1, 250], ["fullclose", "p%d" % k], ["sleep", 100]]
+        return {"id": self.sid, "local_as": 65001, "remote_as": 65000, "local_id": 0x0A000001, "hold": 90,
+                "passive": False, "idle_hold_ms": 100, "connect_retry_ms": 400, "caps": [], "on_open": None,
+                "handler": [], "est_writes": [], "steps": st}
+
+    def check(self, r):
+        bad = []
+        c1 = [c for c in r["conns"] if c["name"] == "c1"]
+        sent = [m for c in c1 for m in (c["msgs"] or []) if m["t"] == 3 and not m["b"].startswith("06")]
+        damps = [e for e in r["events"] if e["kind"] == "m.damp"]
+        c2 = [c for c in r["conns"] if c["name"] == "c2"]
+        if sent and not damps:
+            bad.append("NOTIFICATION (2,1) sent on the outbound connection but no hold-down started")
+            if c2 and not c2[0]["eof"]:
+                bad.append("NOTIFICATION (2,1) sent on the outbound connection but the inbound connection was kept")
+        return bad
+
+
 def sys_part(tier, rng, rep, replay):
     cov = sysrun.run_convs(PID, damp_items(rng, tier), rep, extra_check=lambda c, e, o, r: c.check(r), par=32)
+    covk = sysrun.run_convs(PID, [Dropped(950)], rep, extra_check=lambda c, e, o, r: c.check(r), par=1, kinds=("monitor",))
+    cov["known_finding_reproductions"] = covk["evaluations"]
     cov["rule"] = ("sessions ended at OpenSent/OpenConfirm/Established on either direction by: a received NOTIFICATION of each code "
                    "1-5,7 or Cease, a malformed/unexpected message answered by corebgp's own NOTIFICATION, TCP FIN, TCP RST; then "
                    "three inbound probes over 1 s and the DialerControl log: hold-down (60 s, probes refused silently, no dial) "
